@@ -11,6 +11,24 @@ pub fn build_checksum(checksum_type: ChecksumType, block_data: &[u8]) -> u64 {
     }
 }
 
+/// Verify data read from disk. `stored_type` comes from the same unprotected bytes as the checksum
+/// itself, so it is only trusted as far as the storage configuration (`configured_type`) allows:
+/// when the storage writes checksums, a stored type of `None` is a corruption, not a reason to skip
+/// the verification.
+pub fn verify_stored_checksum(
+    configured_type: ChecksumType,
+    stored_type: ChecksumType,
+    data: &[u8],
+    checksum: u64,
+) -> StorageResult<()> {
+    if stored_type == ChecksumType::None && configured_type != ChecksumType::None {
+        return Err(TracedStorageError::decode(format!(
+            "checksum type is None, but the storage is configured with {configured_type:?}"
+        )));
+    }
+    verify_checksum(stored_type, data, checksum)
+}
+
 pub fn verify_checksum(
     checksum_type: ChecksumType,
     index_data: &[u8],
